@@ -114,4 +114,61 @@ def oracle(case, rec):
     rec.nontrivial = competed >= 1
 
 
-SUBS = [Sub('chain', oracle, strategy=cases, budget={'quick': 3200, 'thorough': 48000})]
+@st.composite
+def step_cases(draw, tier):
+    """One refinement step k -> k+1 on a larger curve (the full chain costs ~n^2 library calls)."""
+    c = draw(S.curves(60, 200 if tier == 'quick' else 500, families=['noise', 'mono_dec', 'convex', 'trace', 'plateau', 'pwl_rational', 'offset', 'quant']))
+    n = len(c['pts'])
+    return {'family': c['family'], 'pts': c['pts'], 'distance': draw(st.sampled_from(S.DISTANCES)),
+            'order': draw(st.sampled_from(S.ORDERS)), 'k': draw(st.integers(2, n))}
+
+
+def oracle_step(case, rec):
+    L = lib.lib()
+    p = lib.pts_of(case)
+    n = len(p)
+    D = dist_fn(case['distance'])
+    order = case['order']
+    k = case['k']
+    rec.tag('step:family:' + case['family'], 'step:k>%d' % (32 * (k // 32)))
+    sets = []
+    for kk in (k, k + 1):
+        r = rec.call(4 * n + 16, L.rdp.rdp_fixed, p, kk, S.distance_of(case['distance']), S.order_of(order), _site='rdp.rdp_fixed')
+        if r is FAILED:
+            return
+        lst = [int(v) for v in np.asarray(r[0])]
+        if not rec.check(len(lst) >= 2 and lst[0] == 0 and lst[-1] == n - 1 and all(a < b for a, b in zip(lst, lst[1:])), 'fixed:malformed', (kk, lst[:20])):
+            return
+        if not rec.check(len(lst) == min(max(kk, 2), n), 'fixed:size', 'k=%d n=%d returned %d indices' % (kk, n, len(lst))):
+            return
+        sets.append(lst)
+    prev, cur = sets
+    if len(cur) == len(prev):
+        rec.check(cur == prev, 'fixed:changed-without-growing', (k,))
+        return
+    new = sorted(set(cur) - set(prev))
+    if not rec.check(len(new) == 1 and set(prev) <= set(cur), 'fixed:not-nested', 'k=%d new=%r' % (k, new[:5])):
+        return
+    s = new[0]
+    j = int(np.searchsorted(prev, s))
+    l, r = prev[j - 1], prev[j]
+    if not rec.check(l < s < r, 'fixed:new-index-not-inside-a-segment', (s, l, r)):
+        return
+    with np.errstate(all='ignore'):
+        d = np.asarray(D(p[l:r + 1], p[l], p[r]), dtype=float)
+    noise = 64 * EPS * max(1.0, float(np.max(np.abs(p[l:r + 1]))))
+    rec.check(d[s - l] >= float(np.max(d[1:-1])) - noise, 'fixed:new-index-not-farthest', 'k=%d segment [%d,%d] new %d' % (k, l, r, s))
+    scores = [(seg_score(p, a, b, order, D), a, b) for a, b in zip(prev[:-1], prev[1:]) if b - a >= 2]
+    mine = seg_score(p, l, r, order, D)
+    finite = [v for v, _, _ in scores if v == v]
+    if finite and mine == mine:
+        mx = max(finite)
+        rec.check(mine >= mx - 1e-9 * max(abs(mx), 1e-300) - 1e-300, 'fixed:segment-not-max-score',
+                  'k=%d order=%s split segment [%d,%d] score %r but best is %r (%d open segments)' % (k, order, l, r, mine, mx, len(scores)))
+        rec.nontrivial = len(scores) >= 2
+        if len(scores) > 32:
+            rec.tag('step:>32-open-segments')
+
+
+SUBS = [Sub('chain', oracle, strategy=cases, budget={'quick': 3200, 'thorough': 48000}),
+        Sub('step', oracle_step, strategy=step_cases, budget={'quick': 1600, 'thorough': 24000})]
